@@ -228,6 +228,8 @@ def expand(chunk):
     if kind == "entry_free":
         for name in ENTRY_FREE:
             yield {"d": d, "kind": "entry_free", "stmt": name, "comb": []}
+        for name in JOIN_SHORTHANDS:
+            yield {"d": d, "kind": "join_shorthand", "stmt": name, "comb": []}
         return
     if kind == "ddl":
         for comb in multisets(DDL_ALPHA, chunk["size"]):
@@ -530,6 +532,57 @@ def run_entry_free(case, res):
             return
 
 
+JOIN_SHORTHANDS = {"inner_join": "inner", "left_join": "left", "left_outer_join": "left_outer", "right_join": "right",
+                   "right_outer_join": "right_outer", "outer_join": "outer", "full_outer_join": "full_outer", "cross_join": "cross",
+                   "hash_join": "hash"}
+
+
+def run_join_shorthand(case, res):
+    """q.left_join(x) is q.join(x, JoinType.left), and so on for every shorthand: same statement, for a table and for a subquery,
+    continued with on() / using() / cross(); is_joined() answers for the joined item and for nothing else"""
+    from pypika_tortoise import Table
+    from pypika_tortoise.enums import JoinType
+
+    d, name = case["d"], case["stmt"]
+    Q = fp.QCLS[d]
+    res.nontrivial = 1
+    res.states.append(h64(json.dumps([d, name])))
+    t, u, w = Table("t"), Table("u"), Table("w")
+    jt = getattr(JoinType, JOIN_SHORTHANDS[name])
+    for item_kind in ("table", "subquery"):
+        for cont in ("on", "using", "on_field", "second_join"):
+            def build(short):
+                item = u if item_kind == "table" else Q.from_(u).select(u.id, u.x).as_("sj")
+                base = Q.from_(t).select(t.a)
+                j = getattr(base, name)(item) if short else base.join(item, jt)
+                if name == "cross_join":
+                    q = j.cross()
+                elif cont == "on":
+                    q = j.on(t.id == item.id)
+                elif cont == "using":
+                    q = j.using("id")
+                elif cont == "on_field":
+                    q = j.on_field("id")
+                else:
+                    q = j.on(t.id == item.id)
+                    q = (q.left_join(w) if short else q.join(w, JoinType.left)).on(t.id == w.id)
+                return q, item
+            try:
+                (a, ia), (b, ib) = build(True), build(False)
+                ra, rb = prog.render(a, d)[0], prog.render(b, d)[0]
+                joined = (a.is_joined(ia), a.is_joined(Table("zz")), b.is_joined(ib))
+            except Exception as e:
+                res.violate("C13|join_shorthand|%s|raises|%s" % (name, type(e).__name__), "a join shorthand raised", dialect=d, item=item_kind, cont=cont, error=str(e)[:200])
+                continue
+            res.transitions += 2
+            res.outcomes.append(h64(ra))
+            if ra != rb:
+                res.violate("C13|join_shorthand|%s|differs-from-join" % name, "the shorthand does not give the statement of join(item, JoinType.%s)" % JOIN_SHORTHANDS[name],
+                            dialect=d, item=item_kind, cont=cont, shorthand=ra, join=rb)
+            if joined != (True, False, True):
+                res.violate("C13|join_shorthand|%s|is_joined" % name, "is_joined() does not report the joined item (and only it)", dialect=d, item=item_kind, got=joined)
+
+
 _ENTRY_FREE_RECORD = None
 
 
@@ -537,6 +590,9 @@ def run_case(case):
     res = Result()
     if case["kind"] == "entry_free":
         run_entry_free(case, res)
+        return res
+    if case["kind"] == "join_shorthand":
+        run_join_shorthand(case, res)
         return res
     d, kind, comb = case["d"], case["kind"], case["comb"]
     lexd = "sqlite" if d == "generic" else d
